@@ -15,6 +15,9 @@ Init == open = [c \in Conns |-> TRUE] /\ dirty = [c \in Conns |-> FALSE] /\ rais
 \* gets is not prescribed (its bytes follow garbage); a clean open connection must be served
 Allowed(c, cls) == IF cls = "valid" /\ ~dirty[c] THEN {"served"}
                    ELSE IF cls = "valid10" /\ ~dirty[c] THEN {"served", "closed"}    \* HTTP/1.0: closed after (or, BareServer, instead of) the answer
+                   \* client side: a response that breaks the framing rules outright (chunk size that is not hexadecimal, chunk
+                   \* data not followed by CRLF, a line beyond the length limit) is reported through the response's error flag
+                   ELSE IF cls \in {"rbadchunk", "rchunkend", "rhugeline"} /\ ~dirty[c] THEN {"error"}
                    ELSE Outcomes
 Input(c, cls, out) ==
   /\ open[c] /\ out \in Allowed(c, cls)
